@@ -368,3 +368,68 @@ def r6(R):
                 'the PersistentReference it is given',
                 key='persistent_id return')
     R.require(n >= 2, 'no cache keys found')
+
+
+# ------------------------------------------------------------------ C10.R7
+@rule('C10.R7', 'the record header a store stages carries the length of the '
+      'data that is written after it (the resolver may have replaced the '
+      'data)', props=['C01', 'C04'], min_instances=2)
+def r7(R):
+    """Typestate per staged record: the header is built from len(<name>);
+    if <name> is re-bound before `_tfile.write(<name>)` the header describes
+    other bytes than the ones that follow it."""
+    cls = R.prog.cls(FS)
+    n = 0
+    for meth in ('store', 'restore', 'deleteObject'):
+        f = R.method(cls, meth)
+        g, b, F = R.cfg(f, cls, max_depth=0)
+
+        def edge(node, st, lab, tgt, F=F):
+            if lab in ('e', 'eb'):
+                return st
+            a = node.ast
+            measured, stale = st
+            if node.kind == 'stmt' and isinstance(a, ast.Assign):
+                # header built: which names were measured
+                for c in ast.walk(a.value):
+                    if isinstance(c, ast.Call) and dotted(c.func) and \
+                            dotted(c.func)[-1] == 'DataHeader':
+                        names = {y.args[0].id for y in ast.walk(c)
+                                 if isinstance(y, ast.Call) and isinstance(
+                                     y.func, ast.Name) and y.func.id == 'len'
+                                 and y.args and isinstance(
+                                     y.args[0], ast.Name)}
+                        measured = frozenset(names)
+                        stale = frozenset()
+                for t in a.targets:
+                    for nm in ast.walk(t):
+                        if isinstance(nm, ast.Name) and nm.id in measured:
+                            stale = stale | {nm.id}
+            return (measured, stale)
+
+        def at(node, st, F=F, meth=meth):
+            measured, stale = st
+            for op in F.ops(node):
+                if op.kind == 'call' and path_is(
+                        op.path, ('self', '_tfile', 'write')) and \
+                        op.ast.args and isinstance(op.ast.args[0], ast.Name) \
+                        and op.ast.args[0].id in stale:
+                    return Violation(
+                        'FileStorage.%s writes `%s` after a header that was '
+                        'built from the length of an EARLIER value of it '
+                        '(the data was re-bound in between, e.g. by conflict '
+                        'resolution): the record length does not match the '
+                        'bytes that follow, loads fail and the file cannot '
+                        'be scanned' % (meth, op.ast.args[0].id))
+            return st
+
+        sites = [c for c in walk_local(f.node) if isinstance(c, ast.Call)
+                 and dotted(c.func) and dotted(c.func)[-1] == 'DataHeader']
+        for c in sites:
+            n += 1
+            R.instance('FileStorage.%s: %s' % (meth, ast.unparse(c)[:60]))
+        vs, stats = explore(g, (frozenset(), frozenset()), at=at, edge=edge)
+        R.count(stats)
+        for v in vs:
+            R.violation(v.node, v.message, g, v.path)
+    R.require(n >= 2, 'no staged record headers found')
